@@ -139,6 +139,9 @@ func ScenarioClasses(v *Verdict, sc *Scenario) {
 	if hostile {
 		v.Class("hostile-labels")
 	}
+	if len(sc.Convs) > 8 || len(sc.Target.In) > 4 {
+		v.Class("wide-scenario")
+	}
 	if sc.Target.ConcreteErr {
 		v.Class("target-final-concrete-error-type")
 	}
